@@ -546,6 +546,117 @@ fn racing_attach(lane_no: u64, ops: &Arc<dyn GlobalOps>, round: u64, rep: &Repor
     true
 }
 
+/// Noise: threads inside ANOTHER runtime's context keep appending and asking for the sink, and one
+/// thread keeps attempting (rejected) attaches, while the main thread installs / uses / drops a
+/// runtime test sink. None of the noise may change where the main thread's entries go, and with a
+/// sink attached all the time no append may ever be handed back.
+fn noisy_history(lane_no: u64, ops: &Arc<dyn GlobalOps>, runtimes: &[Arc<tokio::runtime::Runtime>], round: u64, rep: &Report) -> bool {
+    let attached = CountingSink::new();
+    let handle = ops.attach(attached.clone());
+    let stop = Arc::new(AtomicBool::new(false));
+    let handed_back = Arc::new(std::sync::atomic::AtomicU64::new(0));
+    let noise_appends = Arc::new(std::sync::atomic::AtomicU64::new(0));
+    let mut noise = vec![];
+    for t in 0..3u32 {
+        let (ops, stop, rt, hb, na) = (ops.clone(), stop.clone(), runtimes[1].clone(), handed_back.clone(), noise_appends.clone());
+        noise.push(std::thread::spawn(move || {
+            let _enter = rt.enter();
+            let mut s = 0u32;
+            while !stop.load(Ordering::SeqCst) {
+                if ops.try_append(IdEntry { id: make_id(3000 + t + 10 * lane_no as u32, s) }).is_err() {
+                    hb.fetch_add(1, Ordering::SeqCst);
+                }
+                na.fetch_add(1, Ordering::SeqCst);
+                let _ = ops.is_attached();
+                s = s.wrapping_add(1);
+                progress_tick();
+            }
+        }));
+    }
+    {
+        let (ops, stop) = (ops.clone(), stop.clone());
+        noise.push(std::thread::spawn(move || {
+            while !stop.load(Ordering::SeqCst) {
+                // rejected: a sink is attached all the time
+                let r = catch_unwind(AssertUnwindSafe(|| ops.attach(CountingSink::new())));
+                if let Ok(h) = r {
+                    h.forget();
+                }
+                std::thread::yield_now();
+            }
+        }));
+    }
+    let mut ok = true;
+    let rounds = 150;
+    for k in 0..rounds {
+        let test = CountingSink::new();
+        let guard = ops.set_rt(runtimes[0].handle(), test.clone());
+        let id_in = make_id(4000 + lane_no as u32, (round as u32) << 12 | k << 1);
+        let id_out = id_in + 1;
+        let mut refused = None;
+        {
+            let _enter = runtimes[0].enter();
+            if ops.try_append(IdEntry { id: id_in }).is_err() {
+                refused = Some("with the runtime test sink installed");
+            }
+        }
+        drop(guard);
+        {
+            let _enter = runtimes[0].enter();
+            if ops.try_append(IdEntry { id: id_out }).is_err() {
+                refused = Some("after the runtime test-sink guard was dropped");
+            }
+        }
+        if let Some(when) = refused {
+            rep.violation("attached-sink-refused-entry", json!({"what": "try_append handed the entry back although a sink was attached the whole time (another thread only makes attach attempts that are rejected)", "when": when, "round": k}));
+            ok = false;
+            break;
+        }
+        let got_test: Vec<u64> = test.snapshot().iter().filter_map(|a| a.u64_field("id")).collect();
+        if got_test != vec![id_in] {
+            rep.violation(
+                "entry-routed-to-wrong-destination",
+                json!({"what": "runtime test sink installed, one entry appended, guard dropped, one more entry appended (other threads busy in another runtime's context): the test sink must hold exactly the first entry",
+                       "round": k, "test_sink_holds": got_test, "first_entry": id_in, "entry_after_guard_drop": id_out}),
+            );
+            ok = false;
+            break;
+        }
+    }
+    stop.store(true, Ordering::SeqCst);
+    for t in noise {
+        let _ = t.join();
+    }
+    let hb = handed_back.load(Ordering::SeqCst);
+    if ok && hb != 0 {
+        rep.violation(
+            "attached-sink-refused-entry",
+            json!({"what": "a sink was attached the whole time (another thread only made attach attempts that are rejected), yet try_append handed entries back",
+                   "handed_back": hb, "noise_appends": noise_appends.load(Ordering::SeqCst)}),
+        );
+        ok = false;
+    }
+    if ok {
+        // every probe entry appended after its guard was dropped went to the attached sink
+        let in_attached: std::collections::HashSet<u64> = attached.snapshot().iter().filter_map(|a| a.u64_field("id")).collect();
+        for k in 0..rounds {
+            let id_out = make_id(4000 + lane_no as u32, (round as u32) << 12 | k << 1) + 1;
+            if !in_attached.contains(&id_out) {
+                rep.violation("entry-routed-to-wrong-destination", json!({"what": "an entry appended after the runtime test-sink guard was dropped did not reach the attached sink", "round": k}));
+                ok = false;
+                break;
+            }
+        }
+    }
+    drop(handle);
+    if ok {
+        rep.count("noisy_rounds", rounds as u64);
+        rep.count("noise_appends", noise_appends.load(Ordering::SeqCst));
+        rep.distinct(Fnv::new().str("noisy").u64(round).u64(lane_no).finish());
+    }
+    ok
+}
+
 fn main() {
     std::panic::set_hook(Box::new(|_| {})); // expected panics are part of the histories
     let args = Args::parse();
@@ -555,6 +666,7 @@ fn main() {
          install/drop of a runtime test sink for one of 2 tokio runtimes (from any thread), append / try_append / sink().append from any thread inside either runtime context or none; every op's outcome \
          (destination, documented panic, entry handed back unchanged) is compared with a reference routing state machine (thread > runtime > attached > none) and at the end every destination must have received exactly \
          the predicted ids in order; after expected panics the history continues. Racing part: 3 threads try_append while the handle of a BackgroundQueue-backed attachment is dropped: Ok <=> written before the drop returned. \
+         Noisy part: while threads in another runtime's context append / query and one thread makes rejected attach attempts, a runtime test sink is installed, used, dropped: routing of the probing thread must be unaffected and no append handed back. \
          Racing attach: 2-4 threads attach to the detached global at once: exactly one succeeds, the rest panic, entries reach the winner's sink only. \
          distinct = distinct op histories / races with both outcomes",
     );
@@ -587,6 +699,15 @@ fn main() {
                         // the racing part needs the global detached
                         lane.step(&Op::DetachDrop, &[], rep);
                         if !racing_history(lane_no, &ops, round, rep) {
+                            return;
+                        }
+                    } else if round % 16 == 6 {
+                        lane.step(&Op::DetachDrop, &[], rep);
+                        for r in 0..2 {
+                            lane.step(&Op::DropRt { rt: r }, &[], rep);
+                        }
+                        let rts = lane.runtimes.clone();
+                        if !noisy_history(lane_no, &ops, &rts, round, rep) {
                             return;
                         }
                     } else if round % 8 == 2 {
